@@ -90,6 +90,12 @@ func genCase(t *rapid.T) Case {
 			t.Fatalf("twin: %v", err)
 		}
 		c.Cert = tw.Cert.Raw
+	case 2:
+		at, err := gen.AlienTwin(signer, rapid.IntRange(0, 2).Draw(t, "alien"))
+		if err != nil {
+			t.Fatalf("alien twin: %v", err)
+		}
+		c.Role, c.Cert = "twin_without_rsa_key", at.Raw
 	default:
 		c.Role, c.Cert = "signer", signer.Cert.Raw
 	}
